@@ -575,7 +575,7 @@ def check_termination(cx, cg, fns, rep):
                 else:
                     rep.ok('TERM', '%s|for %s' % (f.qname, es(it)[:60]))
             elif ev.kind == 'loop':
-                if fresh_name_loop_ok(fw, ev):
+                if fresh_name_loop_ok(fw, ev, cx):
                     rep.ok('TERM', '%s|fresh-name search loop' % f.qname, {'file': f.file, 'line': ev.line, 'why': 'candidate grows every iteration; exits when absent from a finite set'})
                 else:
                     rep.bad('TERM', f.qname, '%s-loop' % ev.node['k'].lower(),
@@ -591,13 +591,17 @@ def check_termination(cx, cg, fns, rep):
             rep.bad('TERM', f.qname, 'recursion', 'recursive function without a structurally decreasing argument', f.file, f.line)
 
 
-def fresh_name_loop_ok(fw, ev):
+def fresh_name_loop_ok(fw, ev, cx=None):
     """while/loop that searches an unused name: the body must extend the candidate (push/push_str/format!/+= 1)
     on every iteration and the loop must exit through a test of membership in a finite collection."""
     node = ev.node
     body_txt = es(node.get('body') or node)
     grows = any(x in body_txt for x in ('.push(', '.push_str(', 'format!(', '+= 1', 'format_ident!('))
     tests = any(x in (es(node.get('cond')) if node.get('cond') else body_txt) for x in ('.any(', '.contains(', '.all(', '.iter().find('))
+    if grows and not tests and cx is not None and node.get('cond') is not None:
+        # the membership test may live in a helper: "some generic parameter is called <candidate>" (finite parameter list)
+        from .c19 import exists_param_named
+        tests = exists_param_named(cx, fw, node['cond'], 0, ev.scope) is not None
     return grows and tests
 
 
